@@ -93,14 +93,14 @@ func GenScript(r *hx.Rand, kinds []string, nops int) []string {
 	if kind != "ac" && r.Chance(1, 5) {
 		return genAging(r, script[:1], kind, insts, bm)
 	}
-	chunkings := []string{"w", "w", "1", "h", "3", "e", "rw", "rh", "r3", "r1"}
-	faults := []string{"none", "none", "none", "none", "none", "none", "short", "long", "badhash", "err0", "err1"}
+	chunkings := []string{"w", "w", "1", "h", "3", "e", "rw", "rh", "r3", "r1", "Rw", "R3"}
+	faults := []string{"none", "none", "none", "none", "none", "none", "short", "long", "badhash", "badhash", "err0", "err1", "cancel"}
 	nextOp := 0
 	var open []int
 	for i := 0; i < nops; i++ {
 		switch x := r.Intn(100); {
 		case x >= 100-Corruption:
-			script = append(script, fmt.Sprintf("corrupt %d %s", r.Intn(total), []string{"s", "s", "r", "c", "w", "a", "q", "d", "D"}[r.Intn(9)]))
+			script = append(script, fmt.Sprintf("corrupt %d %s", r.Intn(total), []string{"s", "s", "r", "c", "w", "a", "q", "k", "d", "D"}[r.Intn(10)]))
 		case x == 0 && bm.Alloc == "dev" && Corruption == 0:
 			script = append(script, fmt.Sprintf("ioerr %s %d", []string{"r", "w"}[r.Intn(2)], r.Intn(3)))
 		case x < 30:
@@ -129,7 +129,7 @@ func GenScript(r *hx.Rand, kinds []string, nops int) []string {
 			}
 			nextOp++
 		case x < 70:
-			script = append(script, fmt.Sprintf("get %d %s", r.Intn(total), []string{"s", "s", "s", "r", "c", "w", "a", "q", "p", "d", "x", "o"}[r.Intn(12)]))
+			script = append(script, fmt.Sprintf("get %d %s", r.Intn(total), []string{"s", "s", "s", "r", "c", "w", "a", "q", "k", "p", "d", "x", "o"}[r.Intn(13)]))
 		case x < 85:
 			n := r.Range(1, 3)
 			var os []string
